@@ -634,4 +634,89 @@ extern "C"
   void __tsan_write_range(void *a, unsigned long n) { access(a, n > 256 ? 256 : n, true, PC); }
   void __tsan_vptr_update(void **a, void *) { access(a, 8, true, PC); }
   void __tsan_vptr_read(void **a) { access(a, 8, false, PC); }
+
+  // atomics (what the compiler emits for std::atomic and for the guard of a function-local static): never a data race themselves;
+  // a load acquires, a store releases, a read-modify-write does both - on a clock kept per address in the mutex side table
+  static inline void atomic_hb(const volatile void *a, bool acq, bool rel)
+  {
+    if (!managed())
+      return;
+    Mutex &m = mutex_of(const_cast<void *>(a));
+    if (acq)
+      vc_join(T[tl_id].vc, m.vc);
+    if (rel)
+    {
+      vc_join(m.vc, T[tl_id].vc);
+      T[tl_id].vc[tl_id]++;
+    }
+  }
+#define TSAN_ATOMICS(N, TY)                                                                                                       \
+  TY __tsan_atomic##N##_load(const volatile TY *a, int)                                                                           \
+  {                                                                                                                               \
+    TY v = __atomic_load_n(a, __ATOMIC_SEQ_CST);                                                                                  \
+    atomic_hb(a, true, false);                                                                                                    \
+    return v;                                                                                                                     \
+  }                                                                                                                               \
+  void __tsan_atomic##N##_store(volatile TY *a, TY v, int)                                                                        \
+  {                                                                                                                               \
+    atomic_hb(a, false, true);                                                                                                    \
+    __atomic_store_n(a, v, __ATOMIC_SEQ_CST);                                                                                     \
+  }                                                                                                                               \
+  TY __tsan_atomic##N##_exchange(volatile TY *a, TY v, int)                                                                       \
+  {                                                                                                                               \
+    atomic_hb(a, true, true);                                                                                                     \
+    return __atomic_exchange_n(a, v, __ATOMIC_SEQ_CST);                                                                           \
+  }                                                                                                                               \
+  TY __tsan_atomic##N##_fetch_add(volatile TY *a, TY v, int)                                                                      \
+  {                                                                                                                               \
+    atomic_hb(a, true, true);                                                                                                     \
+    return __atomic_fetch_add(a, v, __ATOMIC_SEQ_CST);                                                                            \
+  }                                                                                                                               \
+  TY __tsan_atomic##N##_fetch_sub(volatile TY *a, TY v, int)                                                                      \
+  {                                                                                                                               \
+    atomic_hb(a, true, true);                                                                                                     \
+    return __atomic_fetch_sub(a, v, __ATOMIC_SEQ_CST);                                                                            \
+  }                                                                                                                               \
+  TY __tsan_atomic##N##_fetch_and(volatile TY *a, TY v, int)                                                                      \
+  {                                                                                                                               \
+    atomic_hb(a, true, true);                                                                                                     \
+    return __atomic_fetch_and(a, v, __ATOMIC_SEQ_CST);                                                                            \
+  }                                                                                                                               \
+  TY __tsan_atomic##N##_fetch_or(volatile TY *a, TY v, int)                                                                       \
+  {                                                                                                                               \
+    atomic_hb(a, true, true);                                                                                                     \
+    return __atomic_fetch_or(a, v, __ATOMIC_SEQ_CST);                                                                             \
+  }                                                                                                                               \
+  TY __tsan_atomic##N##_fetch_xor(volatile TY *a, TY v, int)                                                                      \
+  {                                                                                                                               \
+    atomic_hb(a, true, true);                                                                                                     \
+    return __atomic_fetch_xor(a, v, __ATOMIC_SEQ_CST);                                                                            \
+  }                                                                                                                               \
+  TY __tsan_atomic##N##_fetch_nand(volatile TY *a, TY v, int)                                                                     \
+  {                                                                                                                               \
+    atomic_hb(a, true, true);                                                                                                     \
+    return __atomic_fetch_nand(a, v, __ATOMIC_SEQ_CST);                                                                           \
+  }                                                                                                                               \
+  int __tsan_atomic##N##_compare_exchange_strong(volatile TY *a, TY *c, TY v, int, int)                                           \
+  {                                                                                                                               \
+    atomic_hb(a, true, true);                                                                                                     \
+    return __atomic_compare_exchange_n(a, c, v, false, __ATOMIC_SEQ_CST, __ATOMIC_SEQ_CST);                                       \
+  }                                                                                                                               \
+  int __tsan_atomic##N##_compare_exchange_weak(volatile TY *a, TY *c, TY v, int, int)                                             \
+  {                                                                                                                               \
+    atomic_hb(a, true, true);                                                                                                     \
+    return __atomic_compare_exchange_n(a, c, v, false, __ATOMIC_SEQ_CST, __ATOMIC_SEQ_CST);                                       \
+  }                                                                                                                               \
+  TY __tsan_atomic##N##_compare_exchange_val(volatile TY *a, TY c, TY v, int, int)                                                \
+  {                                                                                                                               \
+    atomic_hb(a, true, true);                                                                                                     \
+    __atomic_compare_exchange_n(a, &c, v, false, __ATOMIC_SEQ_CST, __ATOMIC_SEQ_CST);                                             \
+    return c;                                                                                                                     \
+  }
+  TSAN_ATOMICS(8, unsigned char)
+  TSAN_ATOMICS(16, unsigned short)
+  TSAN_ATOMICS(32, unsigned int)
+  TSAN_ATOMICS(64, unsigned long)
+  void __tsan_atomic_thread_fence(int) { __atomic_thread_fence(__ATOMIC_SEQ_CST); }
+  void __tsan_atomic_signal_fence(int) {}
 }
